@@ -363,7 +363,7 @@ func driveEVMProof(t *testing.T, in, out string, seed int64) {
 		case "absent":
 			state = w.wabs
 			height = cl.HAbsent
-		case "otheraddr", "otheraccount", "wrongstorage":
+		case "otheraddr", "otheraccount", "wrongstorage", "forgedstorage":
 		}
 		slot := evSlot(evPath(pKind, evSrc, evDst, pSeq))
 		proof := state.proofFor(account, slot)
@@ -388,6 +388,14 @@ func driveEVMProof(t *testing.T, in, out string, seed int64) {
 			o := state.proofFor(evOther, slot)
 			proof.StorageHash = o.StorageHash
 			proof.StorageProof = o.StorageProof
+		case "forgedstorage":
+			// a self-consistent forgery: the claimed storage root and the storage proof are those of another storage trie
+			// in which the slot really holds the claimed value; only the (genuine) account proof contradicts it
+			o := state.proofFor(evOther, slot)
+			proof.StorageHash = o.StorageHash
+			proof.StorageProof = o.StorageProof
+			otag := map[*evState]string{w.w1: "w1", w.w0: "w0", w.wabs: "wabs"}[state] + "/other"
+			commitment = evValue(otag, kind, pSeq, valueCls)
 		}
 		switch str(cs["storage"]) {
 		case "otherslot":
